@@ -15,11 +15,15 @@ class AVal:
             return bool(self.v)
         if self.kind == "callres":
             return self.pol
+        if self.kind == "ge":
+            return True if (self.v is not None and self.v >= 1) else None
         return None
 
     def __repr__(self):
         if self.kind == "const":
             return "const(%s)" % self.v
+        if self.kind == "ge":
+            return "ge(%s)" % self.v
         if self.kind in ("call", "callres"):
             return "%s(%s%s)" % (self.kind, self.node.get("callee") or self.node.src,
                                  "" if self.pol is None else "=%s" % self.pol)
@@ -39,6 +43,7 @@ class PathSummary:
         self.env = {}
         self.decisions = {}   # terminator cond node id -> polarity
         self.blocks = []
+        self.trace = []       # every CFG element and branch decision in evaluation order
 
     def called(self, *names):
         return [c for c in self.calls if c.get("callee") in names]
@@ -66,8 +71,19 @@ def _eval(ps, n):
         if s["decl"]["kind"] == "enumconst":
             return AVal("const", s["decl"]["val"])
         return ps.env.get(s["decl"]["name"], UNKNOWN)
+    if s.k == "MemberExpr" and s.get("path") in ps.env:
+        return ps.env[s["path"]]
     if s.k == "CallExpr":
         return AVal("call", node=s)
+    if s.k == "BinaryOperator" and s.get("op") in ("==", "!=", "<", ">", "<=", ">="):
+        l, r = _eval(ps, s.child(0)), _eval(ps, s.child(1))
+        if l.kind == "const" and r.kind == "const" and l.v is not None and r.v is not None:
+            return AVal("const", int({"==": l.v == r.v, "!=": l.v != r.v, "<": l.v < r.v, ">": l.v > r.v,
+                                      "<=": l.v <= r.v, ">=": l.v >= r.v}[s["op"]]))
+        if l.kind == "ge" and r.kind == "const" and r.v is not None and s["op"] in (">", ">=", "!=") and \
+                (l.v > r.v or (s["op"] == ">=" and l.v >= r.v)):
+            return AVal("const", 1)
+        return UNKNOWN
     if s.k == "ConditionalOperator":
         d = ps.decisions.get(s.child(0).strip().id)
         if d is None:
@@ -116,6 +132,7 @@ def _clone(ps):
     q.env = dict(ps.env)
     q.decisions = dict(ps.decisions)
     q.blocks = list(ps.blocks)
+    q.trace = list(ps.trace)
     return q
 
 
@@ -131,10 +148,18 @@ def _do_elem(ps, n):
         ps.calls.append(n)
         ps.events.append(("call", n))
         # address-taken locals become unknown
+        roots = set()
         for a in C.call_args(n):
             p = a.strip_all_casts().get("path") or ""
             if p.startswith("&") and p[1:] in ps.env:
                 ps.env[p[1:]] = UNKNOWN
+            if p:
+                roots.add(p.lstrip("&*"))
+        for key in list(ps.env):
+            if "->" in key or "." in key:
+                if n.get("callee") is None or any(key == r or key.startswith(r + "->") or key.startswith(r + ".")
+                                                   for r in roots):
+                    del ps.env[key]
         return
     if n.k == "ReturnStmt":
         ps.ret_node = n
@@ -144,6 +169,17 @@ def _do_elem(ps, n):
     if t is None:
         return
     ps.events.append(("store", n))
+    if t.k == "MemberExpr" and t.get("path") and "[" not in t["path"] and t.get("tk") in ("int", "enum", "bool"):
+        key = t["path"]
+        if n.k == "BinaryOperator" and n.get("op") == "=":
+            v = _eval(ps, n.child(1))
+            if v.kind == "const":
+                ps.env[key] = v
+            else:
+                ps.env.pop(key, None)
+        else:
+            ps.env.pop(key, None)
+        return
     if t.k == "DeclRefExpr" and t["decl"]["kind"] in ("local", "param"):
         name = t["decl"]["name"]
         op = n.get("op")
@@ -151,6 +187,8 @@ def _do_elem(ps, n):
             cur = ps.env.get(name)
             if cur is not None and cur.kind == "const" and cur.v is not None:
                 ps.env[name] = AVal("const", cur.v + (1 if n["op"] == "++" else -1))
+            elif cur is not None and cur.kind == "ge" and n["op"] == "++":
+                ps.env[name] = AVal("ge", cur.v + 1)
             else:
                 ps.env[name] = UNKNOWN
         elif op == "=":
@@ -196,8 +234,17 @@ def _branch(ps, cond, pol):
                     continue
                 if v.kind == "unknown":
                     ps.env[a["decl"]["name"]] = AVal("const", 1 if apol else 0) if a.get("tk") == "bool" else v
+        if a.k == "MemberExpr" and a.get("path") in ps.env:
+            t = ps.env[a["path"]].truth()
+            if t is not None and t != apol:
+                return False
         # comparisons of a tracked constant
         if a.k == "BinaryOperator" and a.get("op") in ("==", "!=", "<", ">", "<=", ">="):
+            ev = _eval(ps, a)
+            if ev.kind == "const" and ev.v is not None:
+                if bool(ev.v) != apol:
+                    return False
+                continue
             l, r = _eval(ps, a.child(0)), _eval(ps, a.child(1))
             if l.kind == "const" and r.kind == "const" and l.v is not None and r.v is not None:
                 res = {"==": l.v == r.v, "!=": l.v != r.v, "<": l.v < r.v, ">": l.v > r.v,
@@ -220,8 +267,10 @@ def summarize(fn, max_visits=2, limit=20000, params=None):
     count = [0]
     # locals assigned inside each loop: widened to unknown when the head is re-entered
     widen = {}
+    incr_only = {}
     for head, body in C.loops(fn):
         names = set()
+        up = {}
         for bid in body:
             for e in fn.blocks[bid].elems:
                 t = C.store_target(e)
@@ -233,11 +282,16 @@ def summarize(fn, max_visits=2, limit=20000, params=None):
                                    for x in e.child(1).walk())
                     if incr:
                         names.add(t["decl"]["name"])
+                        isup = (e.k == "UnaryOperator" and e.get("op") == "++") or \
+                               (e.get("op") == "+=" and (C.const_of(e.child(1)) or 0) > 0)
+                        up[t["decl"]["name"]] = up.get(t["decl"]["name"], True) and isup
         widen[head.id] = names
+        incr_only[head.id] = {k_ for k_, v_ in up.items() if v_}
 
     def rec(b, ps, visits):
         ps.blocks.append(b.id)
         for e in b.elems:
+            ps.trace.append(("elem", e))
             _do_elem(ps, e)
         if b.id == fn.exit.id:
             out.append(ps)
@@ -254,6 +308,7 @@ def summarize(fn, max_visits=2, limit=20000, params=None):
             if lab[0] in ("true", "false") and lab[1] is not None:
                 if not _branch(q, lab[1], lab[0] == "true"):
                     continue
+                q.trace.append(("branch", lab[1], lab[0] == "true"))
             elif lab[0] == "case":
                 sw = b.cond
                 v = _eval(q, sw) if sw is not None else UNKNOWN
@@ -278,7 +333,10 @@ def summarize(fn, max_visits=2, limit=20000, params=None):
             if s.id in widen and visits.get(s.id, 0) >= 1:
                 for name in widen[s.id]:
                     if name in q.env and q.env[name].kind == "const":
-                        q.env[name] = UNKNOWN
+                        if name in incr_only.get(s.id, ()) and q.env[name].v is not None:
+                            q.env[name] = AVal("ge", q.env[name].v)
+                        else:
+                            q.env[name] = UNKNOWN
             visits[s.id] = visits.get(s.id, 0) + 1
             rec(s, q, visits)
             visits[s.id] -= 1
